@@ -585,6 +585,8 @@ def rule_depth_longest(ctx: Ctx) -> None:
 
 
 def run(ctx: Ctx) -> None:
+    from .c13 import rule_rewrite_order
+    rule_rewrite_order(ctx)   # the normalisation this property relies on (unwrap_nodes expands every wrapper, in order)
     rule_depth_longest(ctx)
     from .c12 import rule_register_depth_paired
     rule_register_depth_paired(ctx)  # per-register depth needs one depth entry per register
